@@ -7,6 +7,7 @@ import (
 	"path/filepath"
 	"runtime"
 	"runtime/debug"
+	"runtime/metrics"
 	"strings"
 	"syscall"
 	"time"
@@ -114,8 +115,7 @@ func (g *guard) call(sub string, m mutate.Mutant, f func() error) bool {
 		g.c.Logf("input %d target=%s class=%s len=%d hex=%s", g.inputs, name, m.Label(), len(m.Data), hexHead(m.Data))
 	}
 	done := make(chan callResult, 1)
-	var before, after runtime.MemStats
-	runtime.ReadMemStats(&before)
+	before := heapAllocated()
 	go func() {
 		var res callResult
 		defer func() {
@@ -173,8 +173,7 @@ func (g *guard) call(sub string, m mutate.Mutant, f func() error) bool {
 		return false
 	}
 finished:
-	runtime.ReadMemStats(&after)
-	alloc := after.TotalAlloc - before.TotalAlloc
+	alloc := heapAllocated() - before
 	inLen := len(m.Data)
 	if g.postLen != nil {
 		inLen = g.postLen()
@@ -334,4 +333,16 @@ func callGoroutineState(dump string) string {
 		}
 	}
 	return "unknown"
+}
+
+var allocSample = []metrics.Sample{{Name: "/gc/heap/allocs:bytes"}}
+
+// heapAllocated is the cumulative number of bytes allocated by the process
+// (the runtime/metrics twin of MemStats.TotalAlloc). Unlike ReadMemStats it
+// does not stop the world (360 µs per read on the loaded 16-core box vs 2 µs);
+// large objects are counted at allocation, small-object counters may lag by at
+// most one span per size class, orders of magnitude below the 8 MiB base allowance.
+func heapAllocated() uint64 {
+	metrics.Read(allocSample)
+	return allocSample[0].Value.Uint64()
 }
